@@ -216,6 +216,54 @@ pub fn case_files(id: &str, r: &mut Rng) -> String {
     format!("{} scen={} path={} opens={}", o.line.replacen("kind=dump", "kind=files", 1), scen, hex(path.as_bytes()), opens)
 }
 
+/// a mapped module whose file is, by the time of the dump, empty, shorter than the mapping, or replaced by an empty file
+/// at the same path (a program being upgraded while it runs). Run in a worker process: reading a file mapping beyond
+/// the end of the file raises SIGBUS.
+pub fn case_truncated(id: &str, r: &mut Rng) -> String {
+    let dir = run_dir("C02files");
+    let path = format!("{}/trunc-{}-{}.so", dir, std::process::id(), r.next() % 100000);
+    // a well-formed module with a build id (reachable through its program headers, i.e. from memory) and no SONAME:
+    // its name is then looked up in the file at its path
+    let mut spec = crate::elfgen::gen_spec(r);
+    spec.is64 = true;
+    spec.be = false;
+    spec.build_id = Some(r.bytes(20));
+    spec.note_phdr = true;
+    spec.has_phdrs = true;
+    spec.has_sections = true;
+    spec.soname = None;
+    spec.soname_at_strsz = None;
+    spec.bias = 0;
+    spec.empty_note_segment = false;
+    spec.tail = *r.pick(&[5000usize, 9000, 20000]);
+    let content = crate::elfgen::build(&spec).bytes;
+    if std::fs::write(&path, &content).is_err() {
+        return format!("C02 {} kind=files scen=truncated result=skip", id);
+    }
+    let prot = *r.pick(&["rx", "r"]);
+    let t = match Target::spawn(&["-m".to_string(), format!("{}:{}:0", path, prot)]) {
+        Ok(t) => t,
+        Err(_) => {
+            let _ = std::fs::remove_file(&path);
+            return format!("C02 {} kind=files scen=truncated result=skip", id);
+        }
+    };
+    let how = *r.pick(&["empty", "short", "replaced-empty", "replaced-short", "page"]);
+    match how {
+        "empty" => { let _ = std::fs::OpenOptions::new().write(true).open(&path).and_then(|f| f.set_len(0)); }
+        "short" => { let _ = std::fs::OpenOptions::new().write(true).open(&path).and_then(|f| f.set_len(100)); }
+        "page" => { let _ = std::fs::OpenOptions::new().write(true).open(&path).and_then(|f| f.set_len(4096)); }
+        "replaced-empty" => { let _ = std::fs::remove_file(&path); let _ = std::fs::write(&path, b""); }
+        _ => { let _ = std::fs::remove_file(&path); let _ = std::fs::write(&path, &content[..64]); }
+    }
+    let mut cfg = DumpCfg::default();
+    cfg.blamed = t.threads[0].tid;
+    let mut dest = RecDest::new(vec![], 0);
+    let o = dump_case("C02", id, &t, &cfg, &mut dest, "");
+    let _ = std::fs::remove_file(&path);
+    format!("{} scen=truncated-{} path={} opens=0", o.line.replacen("kind=dump", "kind=files", 1), how, hex(path.as_bytes()))
+}
+
 /// a target whose thread-group leader has exited (a zombie: never seen stopped, cannot be attached to), dumped with
 /// every kind of waiting time for the stop request — the request must return
 pub fn case_zombie(id: &str, r: &mut Rng) -> String {
@@ -234,6 +282,13 @@ pub fn case_zombie(id: &str, r: &mut Rng) -> String {
 
 pub fn generate(seed: u64, tier: &str, out: &mut dyn std::io::Write) {
     let (nsov, ndso, nfiles) = if tier == "thorough" { (100000, 200, 80) } else { (10000, 36, 18) };
+    for i in 0..(if tier == "thorough" { 40 } else { 8 }) {
+        let (lines, sig) = run_worker(&["worker".to_string(), "truncated".to_string(), seed.to_string(), i.to_string()]);
+        match sig {
+            Some(s) => writeln!(out, "C02 k{}-{} kind=files scen=truncated result=killed:{} path=- opens=0", seed, i, s).unwrap(),
+            None => { for l in lines { writeln!(out, "{}", l).unwrap(); } }
+        }
+    }
     for i in 0..(if tier == "thorough" { 60 } else { 10 }) {
         writeln!(out, "{}", case_zombie(&format!("z{}-{}", seed, i), &mut Rng::for_case(seed, 3002, i))).unwrap();
     }
